@@ -187,10 +187,40 @@ def _never_raises(ck, repo):
         ok = ok and all(isinstance(strip_await(r.value), ast.Call) and callee_last(strip_await(r.value)) == "_build_response"
                         and arg(strip_await(r.value), None, "errors") is not None for r in rets)
         ck.ob("Engine.execute: every exit of the handler returns an errors-only response", ok, e, h, construct="engine:handler-returns")
-        wraps = [n for n in ast.walk(h) if isinstance(n, ast.Call) and callee_last(n) == "TartifletteError"]
-        ok = len(wraps) == 1 and ev.guarded(wraps[0], lambda t: t == f"isinstance({h.name}, TartifletteError)", "F")
-        ck.ob("Engine.execute: foreign exceptions are wrapped into the library's error class before being rendered", ok, e, wraps[0] if wraps else h,
-              construct="engine:wrap-foreign")
+        # what the handler renders, path by path (helpers inlined, locals resolved): the caught error itself when it is a
+        # library error, a TartifletteError wrapping it otherwise
+        from ..pathtab import eager_env
+        from ..q import inlined_view
+        iv = inlined_view(repo, e)
+        cst = iv.stmt_of(iv.maybe_call("_query_executor")) if iv.maybe_call("_query_executor") is not None else None
+        rows = []
+        for tr in iv.cfg.simulate(lambda n, env: None, follow_exc=lambda n, env: n.kind == "stmt" and n.ast is cst):
+            if not any(n.kind == "handler" for n in tr.nodes):
+                continue
+            sym = eager_env(tr, "CAUGHT")
+            last = tr.last_stmt()
+            rv = sym["__sub__"](last.ast.value) if last is not None and isinstance(last.ast, ast.Return) and last.ast.value is not None else None
+            call = strip_await(rv) if rv is not None else None
+            errs = arg(call, None, "errors") if isinstance(call, ast.Call) else None
+            conds = []
+            nodes = tr.nodes
+            for i, n in enumerate(nodes[:-1]):
+                if n.kind == "test":
+                    lab = [l for m, l in iv.cfg.succ[n.id] if m == nodes[i + 1].id]
+                    pre = eager_env(type(tr)(iv.cfg, tr.path[:i + 1], {}, "prefix"), "CAUGHT")
+                    conds.append((unparse(pre["__sub__"](n.ast)), lab[0] if lab else "?"))
+            rows.append((conds, unparse(errs) if errs is not None else None, tr.exit_kind))
+        ok = bool(rows)
+        for conds, errs, kind in rows:
+            lib = [o for t, o in conds if t.replace(" ", "") == "isinstance(CAUGHT,TartifletteError)"]
+            if kind != "return_exit" or errs is None or not lib:
+                ok = False
+            elif lib[-1] == "T":
+                ok = ok and errs.replace(" ", "") == "[CAUGHT]"
+            else:
+                ok = ok and errs.startswith("[TartifletteError(") and "original_error=CAUGHT" in errs.replace(" ", "")
+        ck.ob("Engine.execute: foreign exceptions are wrapped into the library's error class before being rendered, library errors are rendered as they are", ok, e, h,
+              construct="engine:wrap-foreign", detail=str(rows)[:300])
     # statements outside the catch-all: only the cache lookup
     outside = []
     for s in e.body:
@@ -215,17 +245,8 @@ def _never_raises(ck, repo):
     ok = len(parse) == 1 and not risky
     ck.ob("Engine.execute: outside the catch-all only the cached parse/validate call runs package code", ok, e, (risky or outside or [e.node])[0],
           construct="engine:outside", detail=str([unparse(s)[:60] for s in outside]))
-    p = repo.func("tartiflette/execution/collect.py", "parse_and_validate_query")
-    pv = FuncView(p)
-    c = pv.maybe_call("parse_to_document")
-    h = pv.in_broad_try(c) if c is not None else None
-    ok = h is not None and not any(isinstance(s, ast.Raise) for s in ast.walk(h))
-    ck.ob("parse_and_validate_query: the parser call is inside a catch-all that does not re-raise", ok, p, c or p.node, construct="parse:catch-all")
-    for hh in pv.handlers():
-        rets = [s for s in hh.body if isinstance(s, ast.Return)]
-        ok = len(rets) == 1 and isinstance(rets[0].value, ast.Tuple) and unparse(rets[0].value.elts[0]) == "None" and isinstance(rets[0].value.elts[1], ast.List)
-        ck.ob(f"parse_and_validate_query: handler `{unparse(hh.type) if hh.type else 'bare'}` returns (None, [error])", ok, p, hh,
-              construct=f"parse:handler:{unparse(hh.type) if hh.type else 'bare'}")
+    from .. import parsegate
+    parsegate.check(ck, repo, tag="parse")
     # build_response itself cannot fail before the user coercer: execute.execute funnels everything through it
     x = repo.func("tartiflette/execution/execute.py", "execute")
     xv = FuncView(x)
